@@ -2,7 +2,8 @@
 //! behaves like a fresh instance primed with the last window.
 use crate::reflib::*;
 use crate::rsx;
-use yata::core::{Method, MovingAverageConstructor, PeriodType, ValueType};
+use yata::core::{Candle, IndicatorConfig, IndicatorInstance, Method, MovingAverageConstructor, PeriodType, ValueType};
+use yata::indicators::ParabolicSAR;
 use yata::helpers::Peekable;
 use yata::methods::*;
 
@@ -234,5 +235,86 @@ pub fn c07_long_stream() {
 			rsx::check("long.highest_index", h == r_highest_age(r_last(&hist, n as usize)) as PeriodType);
 			rsx::check("long.lowest_index", g == r_lowest_age(r_last(&hist, n as usize)) as PeriodType);
 		}
+	}
+}
+
+/// C07(a) for the indicator-level counter: ParabolicSAR's `trend_inc` (number of acceleration steps of the
+/// running trend) after a single uninterrupted trend of `pre` concrete bars that each make a new extreme,
+/// with af_max/af_step = ratio > 255 so that the acceleration factor is still growing beyond step 255.
+/// Then `t` symbolic valid candles (continuation or stop-and-reverse): SAR/trend equal Wilder's state machine.
+pub fn c07_psar_long() {
+	let pre = rsx::param("pre") as usize;
+	let t = rsx::param("t") as usize;
+	let step_den = rsx::param("step_den") as ValueType;
+	let ratio = rsx::param("ratio") as ValueType;
+	let down = rsx::param("down") != 0;
+	let af_step = 1.0 / step_den;
+	let af_max = af_step * ratio;
+	let cfg = ParabolicSAR { af_step, af_max };
+	let base: ValueType = 100000.0;
+	let c0 = Candle { open: base, high: base + 1.0, low: base - 1.0, close: base, volume: 1.0 };
+	let mut ind = cfg.init(&c0).unwrap();
+	let mut up = true;
+	let mut ep = c0.high;
+	let mut sar = c0.low;
+	let mut k: usize = 1;
+	let mut prev = c0;
+	for i in 0..(pre + t) {
+		let c = if i < pre {
+			// every bar makes a new extreme in the direction of the trend while its other side stays on the
+			// SAR (so the SAR itself stays put and all numbers stay small); the last two concrete bars leave
+			// the SAR behind, so that from then on the SAR moves with the accumulated acceleration factor.
+			// down = 1: bar 0 reverses the initial up trend, then the mirrored staircase
+			let far = i + 2 >= pre;
+			let j = i as ValueType;
+			if down {
+				let (lo, hi) = if i == 0 { (base - 10.0, base + 1.0) } else { (base - 10.0 - j / 64.0, if far { base - 5.0 } else { base + 1.0 }) };
+				Candle { open: hi, high: hi, low: lo, close: lo, volume: 1.0 }
+			} else {
+				let (lo, hi) = (if far { base + 5.0 } else { base - 1.0 }, base + 2.0 + j / 64.0);
+				Candle { open: lo, high: hi, low: lo, close: hi, volume: 1.0 }
+			}
+		} else {
+			let c = valid_candle_i(i - pre);
+			rsx::assume(c.low > base / 4.0 && c.high < base * 4.0);
+			c
+		};
+		let r = ind.next(&c);
+		if up {
+			if c.high > ep {
+				ep = c.high;
+				k += 1;
+			}
+			if c.low < sar {
+				up = false;
+				sar = ep;
+				ep = c.low;
+				k = 1;
+			}
+		} else {
+			if c.low < ep {
+				ep = c.low;
+				k += 1;
+			}
+			if c.high > sar {
+				up = true;
+				sar = ep;
+				ep = c.high;
+				k = 1;
+			}
+		}
+		let trend: ValueType = if up { 1.0 } else { -1.0 };
+		if i + 3 >= pre {
+			rsx::close("psar_long.sar", r.value(0), sar, 256.0);
+			rsx::check("psar_long.trend", r.value(1) == trend);
+		}
+		let afk = af_max.min(af_step * (k as ValueType));
+		sar = sar + afk * (ep - sar);
+		if up {
+			sar = sar.min(c.low).min(prev.low);
+		} else {
+			sar = sar.max(c.high).max(prev.high);
+		}
+		prev = c;
 	}
 }
